@@ -27,7 +27,7 @@ var c05Stats = []string{"sum", "max", "min", "avg", "var", "std", "mean"}
 func genC05(t *rapid.T) C05Case {
 	stat := rapid.SampledFrom(c05Stats).Draw(t, "stat")
 	along := rapid.IntRange(0, 2).Draw(t, "along") > 0
-	cfg := prog.SingleCfg{MaxRank: 6, MaxDim: 4, MaxElems: 400, Distinct: true}
+	cfg := prog.SingleCfg{MaxRank: 6, MaxDim: 4, MaxElems: 400, Distinct: rapid.Bool().Draw(t, "distinctdims")}
 	var p prog.Program
 	if along {
 		p = prog.GenSingle(t, stat+"along", cfg)
